@@ -62,7 +62,7 @@ int vnacal_make_vector_parameter(vnacal_t *vcp,
 	return -1;
     }
     for (int i = 1; i < frequencies; ++i) {
-	if (frequency_vector[i - 1] >= frequency_vector[i]) {
+	if (!(frequency_vector[i - 1] < frequency_vector[i])) {
 	    _vnacal_error(vcp, VNAERR_USAGE, "vnacal_make_vector_parameter: "
 		    "frequencies must be ascending");
 	    return -1;
